@@ -203,7 +203,7 @@ def driverRun (xc : XcmpCore) (action : Action) (input : String) (inputIsFilenam
 def driverRunCatch (xc : XcmpCore) (action : Action) (input : String) (inputIsFilename : Bool)
     (outputBinaryFilename : String) (mem : Bool) (fs : Fs) : RunOutcome :=
   match driverRun xc action input inputIsFilename outputBinaryFilename mem fs with
-  | .error _ => .ret 1 fs true (if action = .binary then .none else .text)
+  | .error _ => .ret 1 fs true (stdoutOfAction action mem)     -- whatever had been printed before the throw
   | r => r
 
 structure XcmpOpts where
